@@ -52,6 +52,10 @@ def base_ns(draw=None, probes=0, hooks=False):
         v='⟦V⟧', c=0, s=dict(t='list', items=['⟦s⟧']),
         fa=dict(t='rec', id='fa', ret='⟦FA⟧'),
         ft=dict(t='rec', id='ft', ret=1),
+        fut=dict(t='rec', id='fut', ret=None, raises='user:TimeoutError'),
+        fuc=dict(t='rec', id='fuc', ret=None, raises='user:ConnectionError'),
+        fun=dict(t='rec', id='fun', ret=None, raises='user:NotFound'),
+        fuk=dict(t='rec', id='fuk', ret=None, raises='user:KeyError'),
         ff=dict(t='rec', id='ff', ret=0),
         fr=dict(t='rec', id='fr', ret=None, raises='VfB'),
         oa=obj,
